@@ -475,6 +475,21 @@ func restScenC18(d *restDriver, c *ctx) {
 			}})
 		}
 	}
+	// provisioning URLs: the full grid type x hash x digits x period present/absent
+	for _, typ := range []string{"totp", "hotp"} {
+		for ai, a := range []string{"SHA1", "SHA256", "SHA512"} {
+			for di, dg := range []string{"6", "8", "9", "10"} {
+				q := newRReq()
+				q.Type, q.Secret, q.Algorithm, q.Digits = rfStr(typ), rfStr(b32np(c.randBytes(10))), rfStr(a), rfStr(dg)
+				q.Issuer = rfStr([]string{"Example", "Ex ample/Co", "Exämple", "a+b%c"}[(ai+di)%4])
+				q.Account = rfStr([]string{"alice@example.com", "al ice", "älice", "a/b?c#d"}[(ai*2+di)%4])
+				if (ai+di)%2 == 0 {
+					q.Period = rfNum([]uint64{30, 60, 1, 3600}[di])
+				}
+				d.do(seq, job{scn: fmt.Sprintf("C18/urlgrid/%s/%s/%s", typ, a, dg), method: "POST", path: "/otp/url", cls: "typed", q: q})
+			}
+		}
+	}
 	// the smallest explicit instants (1 is the first value that is "an instant" rather than "use the clock")
 	for i, ts := range []int64{1, 2, 29, 30, 31, 59, 60} {
 		key := c.randBytes(20)
